@@ -283,21 +283,26 @@ class Real:
         self.dflt_ctmo = int(re.search(r"def CONNECT_TIMEOUT : Nat := (\d+)", gen).group(1))
         self.dflt_rcmd = {}
 
-    def run(self, pers, argv, env, timeout=20, user=None):
+    def run(self, pers, argv, env, timeout=20, user=None, stdin_data=None):
         cmd = [self.bin[pers]] + argv
         if user is not None:
             cmd = ["setpriv", "--reuid", str(user), "--regid", str(user), "--clear-groups"] + cmd
-        try:
-            p = subprocess.run(cmd, env=env, stdin=subprocess.DEVNULL, stdout=subprocess.PIPE, stderr=subprocess.PIPE,
-                               timeout=timeout)
-            return p.returncode, p.stdout, p.stderr
-        except subprocess.TimeoutExpired:
-            return None, b"", b"TIMEOUT"
+        for attempt in (0, 1):      # a time-out alone is tried once more before it is reported (loaded machine)
+            try:
+                kw = {"stdin": subprocess.DEVNULL} if stdin_data is None else {"input": stdin_data}
+                p = subprocess.run(cmd, env=env, stdout=subprocess.PIPE, stderr=subprocess.PIPE, timeout=timeout, **kw)
+                return p.returncode, p.stdout, p.stderr
+            except subprocess.TimeoutExpired:
+                continue
+        return None, b"", b"TIMEOUT"
 
 
 DUMP = {"path": rb"^Remote program path\t(.*)$", "ruser": rb"^Remote username\t\t(.*)$", "rcmd": rb"^Rcmd type\t\t(.*)$",
         "ctmo": rb"^Connect timeout \(secs\)\t(-?\d+)$", "utmo": rb"^Command timeout \(secs\)\t(-?\d+)$",
         "fanout": rb"^Fanout\t\t\t(-?\d+)$"}
+
+
+DUMP_OPTIONAL = {"cmd": rb"^Command:\t\t(.*)$", "infiles": rb"^Infile\(s\)\t\t(.*)$", "outfile": rb"^Outfile\t\t\t(.*)$"}
 
 
 def parse_dump(out):
@@ -307,7 +312,31 @@ def parse_dump(out):
         if not m:
             return None
         d[k] = m.group(1).decode("latin1")
+    for k, rx in DUMP_OPTIONAL.items():
+        m = re.search(rx, out, re.M)
+        if m:
+            d[k] = m.group(1).decode("latin1")
     return d
+
+
+def unhex(h):
+    return "" if h == "-" else bytes.fromhex(h).decode("latin1")
+
+
+def assembly_differs(pers, d, mm):
+    """the remote command (DSH) / the source files and the destination (PCP) of the listing vs the model's"""
+    kv = dict(x.split("=", 1) for x in mm if "=" in x)
+    if "cmd" not in kv:
+        return None
+    if pers == "dsh":
+        want = d.get("cmd")
+        got = "none" if kv["cmd"] == "~" else unhex(kv["cmd"])
+        return None if want == got else "command: listing `%s` model `%s`" % (want, got)
+    ins = ", ".join(unhex(x) for x in kv["in"].split(",")) if kv["in"] else None
+    outf = "none" if kv["out"] == "~" else unhex(kv["out"])
+    if d.get("infiles") != ins or d.get("outfile") != outf:
+        return "files: listing %r -> %r model %r -> %r" % (d.get("infiles"), d.get("outfile"), ins, outf)
+    return None
 
 
 def base_fields(real, pers):
@@ -731,6 +760,25 @@ def run(ctx):
             c = gen_modes(rng, real.files)
             c.group = "modes"
             cases.append(c)
+        # the remote command: the words after the options, joined by blanks (correspondence; the property about the command
+        # as such is C09's): several words, words that look like options, empty words, blanks inside words, `--`
+        WORDS = ["ls", "-l", "-f", "3", "", " ", "a b", "--", "-", "echo", "%h", "x;y", "'q'", "-w", "foo", "-S", "none2", "\t"]
+        cmdsets = [["ls", "-l"], ["echo", "-f", "3"], ["a", "", "b"], [""], ["", ""], ["a b", "c"], ["--", "x"], ["-"], ["-", "x"],
+                   ["echo", "--", "-q"], [" "], ["x", " ", "y"], ["uname"], ["a"] * 40]
+        for i in range(len(cmdsets) + (40 if quick else 1500)):
+            ops = cmdsets[i] if i < len(cmdsets) else [rng.choice(WORDS) for _ in range(rng.choice([1, 2, 2, 3, 5]))]
+            opts = [("w", "foo"), ("q", None)] + ([("f", "3")] if i % 3 == 0 else []) + ([("S", None)] if i % 4 == 0 else [])
+            dd = i % 2 == 0
+            if not dd and ops and ops[0].startswith("-") and ops[0] != "-":
+                dd = True           # the first word after the options must not look like one (else it IS one)
+            c = Case("dsh", opts, {}, ops, dashdash=dd, oracle=False)
+            c.group = "cmdwords"
+            cases.append(c)
+        for n in range(0, 5):       # PCP: source files and destination
+            c = Case("pdcp", [("w", "foo"), ("q", None)], {}, [real.files["src"]] * max(0, n - 1) + ([real.files["dst"]] if n else []),
+                     oracle=False)
+            c.group = "cmdwords"
+            cases.append(c)
         for c in load_corpus(real.files):
             cases.append(c)
         if rp_case is not None:         # --replay: only the recorded case
@@ -808,6 +856,8 @@ def run(ctx):
                 got = "ok %s %s %s %s %s" % (mm[1], mm[2], mm[3], mm[4], mm[5] if mm[5] != "~" else hx("none"))
                 if d is not None and (mm[7] != hx(d["path"]) or "q=1" not in mm):
                     got += " path/q differ: model %s" % m
+                if d is not None and assembly_differs(c.pers, d, mm):
+                    got += " " + assembly_differs(c.pers, d, mm)
                 if "z=1" in mm and "q=1" in mm and d is None and rc == 0:
                     got = want      # pdcp server mode: opt_list prints the PCP section only (no generic settings to compare)
             else:
@@ -956,17 +1006,33 @@ def run(ctx):
                 rcases.append(Case("dsh", opts, {"FANOUT": t} if src == "e" else {}, ["/bin/true"], kind="run"))
         for extra in ([("u", "-1")], [("u", "7")], [("l", "u" * 300)], [("t", "5")], [("l", "someone")], [("u", "-4294967295")]):
             rcases.append(Case("dsh", [("R", "exec"), ("w", "h[0-2]")] + extra, {}, ["/bin/true"], kind="run"))
+        # no command: the prompt loop reads commands from stdin (at once end of file: nothing is contacted, exit 0; one
+        # command line: it is run on the targets)
+        for how in ("eof", "cmd", "cmd"):
+            c = Case("dsh", [("R", "exec"), ("w", "h[0-2]")] + ([("f", "2")] if how == "cmd" else []), {}, [], kind="run")
+            c.interactive = how
+            rcases.append(c)
         if rp_case is not None:
             rcases = [rp_case] if rp_kind == "run" else []
         # the remote command leaves a trace, so that "refused before anything is contacted" is observable
         touch = "/usr/bin/touch" if os.path.exists("/usr/bin/touch") else "/bin/touch"
         for i, c in enumerate(rcases):
             c.trace = os.path.join(ctx.scratch, "c18contacted_%d" % i)
-            c.operands = [touch, c.trace]
+            c.operands = [touch, c.trace] if not getattr(c, "interactive", None) else []
         rargv = [c.argv() for c in rcases]
-        with concurrent.futures.ThreadPoolExecutor(max_workers=8) as ex:
-            rres = list(ex.map(lambda ca: real.run("dsh", ca[1], ca[0].env, timeout=5), zip(rcases, rargv)))
         rmod = ctx.model("opt", "".join(model_line(real, c, a) + "\n" for c, a in zip(rcases, rargv)), args=["model", bits])
+
+        def one_run(cam):
+            c, a, m = cam
+            # generous limit (and one more try) where the model says the run ends; 5 s where it predicts a hang
+            limit = 5 if (m.startswith("ok ") and "term=0" in m.split(" ")) else 25
+            data = None
+            if getattr(c, "interactive", None) == "cmd":
+                data = ("%s %s\n" % (touch, c.trace)).encode()
+            return real.run("dsh", a, c.env, timeout=limit, stdin_data=data)
+
+        with concurrent.futures.ThreadPoolExecutor(max_workers=8) as ex:
+            rres = list(ex.map(one_run, zip(rcases, rargv, rmod)))
         robs = []
         for c, (rc, out, err_) in zip(rcases, rres):
             robs.append("hang" if rc is None else ("rej:%d" % (1 if err_.strip() else 0) if rc != 0 else None))
@@ -986,6 +1052,16 @@ def run(ctx):
             if got != want:
                 ctx.disagreement("opt model vs pdsh -R exec run", "impl `%s` model `%s`" % (want, m), case)
             contacted = os.path.exists(c.trace)
+            how = getattr(c, "interactive", None)
+            if how:
+                dist["interactive"] = dist.get("interactive", 0) + 1
+                nxt = [w for w in m.split(" ") if w.startswith("next=")]
+                if nxt != ["next=interactive"]:
+                    ctx.disagreement("opt model: no command", "model does not predict the prompt loop: `%s`" % m, case)
+                if rc == 0 and contacted != (how == "cmd"):
+                    ctx.disagreement("pdsh without a command", "stdin %s: targets %scontacted" %
+                                     ("gives one command line" if how == "cmd" else "is at end of file", "" if contacted else "not "), case)
+                continue
             if rc is not None and rc != 0 and contacted:
                 ctx.offender("refused-but-contacted", "pdsh refused the configuration (exit %d) but had already run the "
                              "remote command: env %s argv %s" % (rc, c.env, a), case)
